@@ -111,15 +111,5 @@ Section SectionsProofs.
 End SectionsProofs.
 
 (* ------------------------------------------------------------------ apostrophe runs *)
-Lemma quotes_balanced_upto_10 :
-  forallb (fun cs => implb (balanced cs) (path_is_toggle stable_sort cs && path_is_toggle antistable_sort cs)) (seqs23 10) = true.
-Proof. vm_compute. reflexivity. Qed.
-
-(* an italic span containing 17 bold words on one line: balanced, but the 32-state pruning loses the denoted path *)
-Lemma quotes_balanced_refuted :
-  exists counts, balanced counts = true /\ length counts = 36 /\
-    path_is_toggle stable_sort counts = false /\ path_is_toggle antistable_sort counts = false.
-Proof. exists (italic_with_bolds 17). vm_compute. repeat split. Qed.
-
 Lemma quotes_example : balanced [2; 3; 3; 2] = true /\ balanced [2; 3] = false /\ path_is_toggle stable_sort [2; 3; 3; 2] = true.
 Proof. vm_compute. repeat split. Qed.
